@@ -6,7 +6,7 @@ CONSTANTS
     MaxN = 6
     Ks = {2, 3}
     MaxIters = {1, 2, 3, 4}
-    LCM = 60
+    FullLayer = FALSE
     ShowSwap = FALSE
     RowSum = 0
     ShowEmpty = FALSE
